@@ -29,11 +29,15 @@ def check(ctx: Ctx):
     ctx.rule("R-REPR.a", "generic encoder: each positional constructor parameter p has a field _p (or a _repr_mapping entry) that is derived from p")
     ctx.rule("R-REPR.a2", "generic decoder: every key the encoder writes is a constructor parameter")
     ctx.rule("R-REPR.b", "custom encoder/decoder pair: keys read are written, nothing written is ignored, each key returns to the constructor role it was taken from")
+    ctx.rule("R-REPR.pair", "a mapping encoded as two parallel lists lists its keys and its values in the same order")
     ctx.rule("R-REPR.c", "__getstate__/__setstate__ list the same fields in the same order and cover every field assigned in __init__")
     ctx.rule("R-REPR.d", "no attribute / link is attached to a wire object from outside its class (it would not be encoded)")
     ctx.rule("R-REPR.dispatch", "simple_repr / from_repr handle every simple type (str, Number, bool, list, tuple, set, dict, None, SimpleRepr objects, namedtuples, message_type instances)")
     ctx.rule("R-PROTO.c", "every construction of a message class binds its declared fields (positional arity or keywords)")
     ctx.rule("R-WIRE.http", "HTTP transport: header keys written by send_msg are the keys read by do_POST and keep their roles; type round-trips str()/int()")
+    n_pair = R.check_parallel_lists(ctx, "R-REPR.pair", [f for m in repo.modules.values() for f in repo.all_functions(m) if f.name == "_simple_repr"])
+    if n_pair < 2:
+        raise AnalysisError(f"R-REPR.pair: {n_pair} encoders splitting a mapping into parallel lists found (expected >= 2: MGM2 offers, Max-Sum costs)")
 
     classes = R.simple_repr_classes(repo)
     n_generic = 0
@@ -628,6 +632,10 @@ _CP = "pydcop/infrastructure/computations.py"
 _CM = "pydcop/infrastructure/communication.py"
 _SRF = "pydcop/utils/simple_repr.py"
 VARIANTS = [
+    ("mgm2_offer_keys_sorted_values_not", "pydcop/algorithms/mgm2.py", "                var_values, gains = zip(*self.offers.items())\n                r[\"var_values\"] = var_values\n                r[\"gains\"] = gains\n",
+     "                r[\"var_values\"] = sorted(self.offers)\n                r[\"gains\"] = list(self.offers.values())\n", "break", "R-REPR.pair"),
+    ("n_mgm2_offer_keys_values_lists", "pydcop/algorithms/mgm2.py", "                var_values, gains = zip(*self.offers.items())\n                r[\"var_values\"] = var_values\n                r[\"gains\"] = gains\n",
+     "                r[\"var_values\"] = list(self.offers.keys())\n                r[\"gains\"] = list(self.offers.values())\n", "neutral"),
     ("getstate_drop_routes", _O, "            self._default_route,\n            self._routes,\n        )\n\n    def __setstate__", "            self._default_route,\n        )\n\n    def __setstate__", "break", "R-REPR.c"),
     ("setstate_swapped", _O, "            self._default_route,\n            self._routes,\n        ) = state", "            self._routes,\n            self._default_route,\n        ) = state", "break", "R-REPR.c"),
     ("field_renamed", "pydcop/algorithms/mgm.py", "        self._random_nb = random_nb", "        self._rnd = random_nb", "break", "R-REPR.a"),
